@@ -336,7 +336,7 @@ def rand_params(rng, prop):
     mn = rng.randint(1, mx)
     sl = rng.randint(0, mx - 1)
     if prop == "C04":
-        im = rng.choice([0, 1])
+        im = min(mx - 1, rng.choice([0, 1]))
     else:
         im = min(mx - 1, rng.choice([0, 0, 1, rng.randint(0, mx - 1), rng.randint(0, mx - 1)]))
     isil = rng.randint(0, 3)
